@@ -2176,6 +2176,34 @@ int cif_value_copy_char(cif_value_tp *value, const UChar *text) {
     }
 }
 
+/*
+ * Switches the numeric locale to "C" and returns a copy of the name of the locale that was in effect, for
+ * restore_numeric_locale(); returns NULL (changing nothing) on failure.  Note that the string returned by setlocale()
+ * itself is the name of the locale just set, and may be overwritten by later calls.
+ */
+static char *use_c_numeric_locale(void) {
+    char *current = setlocale(LC_NUMERIC, NULL);
+    char *saved = NULL;
+
+    if (current != NULL) {
+        saved = (char *) malloc(strlen(current) + 1);
+        if (saved != NULL) {
+            strcpy(saved, current);
+            if (setlocale(LC_NUMERIC, "C") == NULL) {
+                free(saved);
+                saved = NULL;
+            }
+        }
+    }
+
+    return saved;
+}
+
+static void restore_numeric_locale(char *saved) {
+    (void) setlocale(LC_NUMERIC, saved);
+    free(saved);
+}
+
 int cif_value_init_numb(cif_value_tp *n, double val, double su, int scale, int max_leading_zeroes) {
     if ((su < 0.0) || (-scale < LEAST_DBL_10_DIGIT) || (-scale > DBL_MAX_10_EXP) || (max_leading_zeroes < 0)) {
         return CIF_ARGUMENT_ERROR;
@@ -2183,7 +2211,7 @@ int cif_value_init_numb(cif_value_tp *n, double val, double su, int scale, int m
         FAILURE_HANDLING;
         struct numb_value_s *numb = &(n->as_numb);
         int most_significant_place = MSP(val);
-        char *locale = setlocale(LC_NUMERIC, "C");
+        char *locale = use_c_numeric_locale();
 
         if (locale != NULL) {
             char *digit_buf = to_digits(val, scale);
@@ -2243,7 +2271,7 @@ int cif_value_init_numb(cif_value_tp *n, double val, double su, int scale, int m
                     numb->scale = scale;
 
                     /* restore the original locale */
-                    setlocale(LC_NUMERIC, locale);
+                    restore_numeric_locale(locale);
 
                     return CIF_OK;
                 }
@@ -2255,7 +2283,7 @@ int cif_value_init_numb(cif_value_tp *n, double val, double su, int scale, int m
             }
 
             /* restore the original locale */
-            setlocale(LC_NUMERIC, locale);
+            restore_numeric_locale(locale);
         }
 
         FAILURE_TERMINUS;
@@ -2293,7 +2321,7 @@ int cif_value_autoinit_numb(cif_value_tp *numb, double val, double su, unsigned 
             int result_code = CIF_INTERNAL_ERROR;
 
             /* number formatting and parsing must be done in the C locale to ensure portability */
-            char *locale = setlocale(LC_NUMERIC, "C");
+            char *locale = use_c_numeric_locale();
 
             if (locale != NULL) {
                 char buf[BUF_SIZE];
@@ -2347,7 +2375,7 @@ int cif_value_autoinit_numb(cif_value_tp *numb, double val, double su, unsigned 
                     result_code = cif_value_init_numb(numb, val, su, scale, DEFAULT_MAX_LEAD_ZEROES);
                 } /* else the formatted su overflowed, despite our checks.  The su_rule must be very large. */
 
-                (void) setlocale(LC_NUMERIC, locale);
+                restore_numeric_locale(locale);
             }
 
             return result_code;
